@@ -517,7 +517,8 @@ func c07PanicLine(stderr string) string {
 		l := lines[i]
 		if strings.HasPrefix(l, "panic: ") || strings.HasPrefix(l, "fatal error: ") || strings.Contains(l, "level=panic") || strings.Contains(l, "level=fatal") {
 			if len(l) > 400 {
-				l = l[:400]
+				// keep the end too: "... is not valid UTF-8" follows a label value that may be very long
+				l = l[:200] + " ... " + l[len(l)-195:]
 			}
 			return l
 		}
@@ -590,7 +591,7 @@ func (w *c07Worker) eval(c *Case, timeout time.Duration) (string, []Fail) {
 // c07PanicSig classifies a panic by its call site
 func c07PanicSig(msg string) string {
 	switch {
-	case strings.Contains(msg, "is not valid UTF-8"):
+	case strings.Contains(msg, "is not valid UTF-8") || (strings.Contains(msg, "LazyRWCounterVec") && strings.Contains(msg, "label value")):
 		return "c07:panic:label-value"
 	case strings.Contains(msg, "index out of range") || strings.Contains(msg, "slice bounds out of range"):
 		return "c07:panic:index"
